@@ -101,7 +101,7 @@ impl Prop for C07 {
         (graph_strategy(&ALL_KINDS, 21, 60, me, &[0, 3, 4, 4], 4), any::<u64>()).prop_map(|(g, sel)| ParCase { g, sel }).boxed()
     }
     fn random_cases(&self, tier: Tier) -> u32 {
-        tier.pick(48, 1200)
+        tier.pick(160, 2_400)
     }
     fn extra_evidence(&self, _root: &Path) -> serde_json::Value {
         // informational static audit: which parallel adaptors does the library use?
